@@ -187,6 +187,9 @@ def _oracle(case, out):
         p = 0
         for (l0, cp0) in reads:
             got = dec_vec(o, cp0)
+            if p >= limit and (st, val) != (0, 0):
+                return ("Take at its limit must answer end-of-file itself, got %r "
+                        "(the inner reader was consulted again)" % ((st, val),))
             k = val if st == 0 else 0
             r = vec_check("take.read", l0, cp0, got, 0, src[p:p + k])
             if r:
